@@ -770,7 +770,28 @@ package badger
 //@   assert[kv-key] before call ParseKey#2 : arg0 == ret(SafeCopy#1)
 //@   assert[kv-version] before call ParseTs : arg0 == ret(SafeCopy#1)
 //@   assert[kv-value] before call SafeCopy#2 : arg1 == e.Value
+//@   assert[kv-as-committed] before call append#1 : kv.ExpiresAt == e.ExpiresAt && kv.Version == ret(ParseTs#1) && kv.Key == ret(ParseKey#2) && kv.Value == ret(SafeCopy#2) && len(kv.Meta) == 1 && kv.Meta[0] == e.UserMeta
+//@   assert[each-matching-subscriber-gets-it] before call append#1 : len(arg1) == 1 && arg1[0] == kv
+//@   assert[only-active-subscribers] before call Load : arg0 == p.subscribers[id].active
 //@   note C32: light mode; trie.Get is used under an assumed contract (ids whose pattern matches the key given); exactly-once and commit order across batches are not covered
+
+// Subscriptions are registered under a fresh id before their patterns go into the index, and
+// removed together with their patterns; updates are queued only while someone is subscribed.
+//@ func (*publisher).newSubscriber
+//@   props C32
+//@   light
+//@   assert[fresh-id] before call Store : id == old(p.nextID) && p.nextID == old(p.nextID) + 1 && held(p.Mutex)
+//@   assert[patterns-under-own-id] before call AddMatch : arg0 == p.indexer && arg2 == id && s.id == id
+
+//@ func (*publisher).deleteSubscriber
+//@   props C32
+//@   light
+//@   assert[own-patterns-removed] before call DeleteMatch : arg0 == p.indexer && arg2 == id && held(p.Mutex)
+
+//@ func (*publisher).sendUpdates
+//@   props C32
+//@   light
+//@   assert[queued-only-when-subscribed] before call IncrRef : ret(noOfSubscribers#1) != 0
 
 // ---- read-only opens change nothing (C07, second sentence): every file-mutating primitive
 // reachable from Open, reads and Close is guarded by "not read-only" ----
